@@ -1296,6 +1296,27 @@ func c09(r *core.Run) {
 			o.Fail(p.Pos(f.Pos()), "%s: %s", core.FuncName(f), m)
 		}
 	})
+	r.Check("D4/K3/options-applied-before-derived-values", "in lib/load a constructor that applies functional options to a local options struct reads no field of that struct while an option can still run: window, bucket count and threshold used to size the counters are the configured ones, not the defaults they had before the options loop", func(o *core.O) {
+		if !need(o) {
+			return
+		}
+		n := 0
+		for _, f := range p.PkgFuncs(loadPkg) {
+			early, sites := gxOptionReadsBeforeApplied(f)
+			if sites == 0 {
+				continue
+			}
+			n += sites
+			r.Fn(core.FuncName(f))
+			for _, in := range early {
+				o.Fail(p.InstrPos(in), "%s reads %s of its options before the last option was applied: a value derived from it (bucket duration, windows per second) ignores WithWindow/WithBuckets/WithCpuThreshold", core.FuncName(f), core.Describe(in.(ssa.Value)))
+			}
+		}
+		o.Site(n, loadPkg+": option application sites")
+		if n == 0 {
+			o.Unres("no functional-option application found in %s", loadPkg)
+		}
+	})
 	r.Check("D4/K7/windows-per-second", "windows ≡ 1 s / (window / buckets); both counters are built with (buckets, window/buckets) and ignore the current bucket", func(o *core.O) {
 		if !need(o) {
 			return
